@@ -42,7 +42,8 @@ type ValSpec struct {
 
 type XrtSpec struct {
 	Obj  string `json:"obj"`  // what is handed over: object|array|func|date|own|prim|nil
-	Path string `json:"path"` // set|tovalue|setfield|newarray
+	Path string `json:"path"` // set|tovalue|setfield|newarray|goret|callarg|callthis|rtnew
+	Ret  string `json:"ret,omitempty"` // goret: declared result type of the Go function: iface|value|valueerr|object|objecterr|multi
 }
 
 type Case struct {
@@ -51,6 +52,8 @@ type Case struct {
 	Reps int       `json:"reps,omitempty"`
 	Src  string    `json:"src,omitempty"`
 	Feat []string  `json:"feat,omitempty"`
+	Cg   []string  `json:"cg,omitempty"`  // some runtimes get a host-provided global object (SetGlobalObject) that already has these properties
+	Pre  bool      `json:"pre,omitempty"` // run the shared Program in such a runtime BEFORE the concurrent phase
 	Vals []ValSpec `json:"vals,omitempty"`
 	Xrt  *XrtSpec  `json:"xrt,omitempty"`
 }
@@ -70,6 +73,7 @@ var featOps = map[string][]string{
 	"gen":       {"ONewFunc 8", "OEnterFunc 8 false", "OLocal 2"},
 	"stack":     {"OStackTrace"},
 	"misc":      {"OLocal 3"},
+	"globals":   {"OBindGlobal 9", "OLocal 4"},
 }
 
 func coqOps(feat []string) string {
@@ -285,6 +289,25 @@ func genProg(r *vh.Rng) Case {
 	var feat []string
 	var sb strings.Builder
 	sb.WriteString("var R=[];\n")
+	var cg []string
+	pre := false
+	if r.Chance(40) {
+		// top-level var/function declarations observed BEFORE their initialisation (hoisting), and runtimes whose
+		// host-provided global object already has some of those names
+		feat = append(feat, "globals")
+		k := r.Intn(50)
+		sb.WriteString(fmt.Sprintf("var H=[];\n[function(){return va},function(){return vb},function(){return vc},function(){return typeof fa},function(){return vd}].forEach(function(f){try{H.push(String(f()))}catch(e){H.push(e.name)}});\nvar va=%d;\nvar vb=va+1, vc=\"c\";\nfunction fa(){return va}\nvar vd=fa();\nR.push(H.join()+\"/\"+[va,vb,vc,vd].join());\n", k))
+		names := []string{"va", "vb", "vc", "vd", "fa", "H", "unrelated"}
+		for _, n := range names {
+			if r.Chance(35) {
+				cg = append(cg, n)
+			}
+		}
+		if len(cg) == 0 {
+			cg = []string{names[r.Intn(4)]}
+		}
+		pre = r.Chance(60)
+	}
 	if r.Chance(30) {
 		sb.WriteString("function topf(a){return a+1}\nvar topv=topf(1);\n")
 	}
@@ -296,7 +319,7 @@ func genProg(r *vh.Rng) Case {
 	}
 	sb.WriteString("R.join(\"\\n\")\n")
 	gs := []int{2, 3, 4, 8, 8, 8, 12, 16}
-	return Case{Kind: "prog", G: gs[r.Intn(len(gs))], Reps: 1 + r.Intn(2), Src: sb.String(), Feat: feat}
+	return Case{Kind: "prog", G: gs[r.Intn(len(gs))], Reps: 1 + r.Intn(2), Src: sb.String(), Feat: feat, Cg: cg, Pre: pre}
 }
 
 // ------------------------------------------------------------------------------------------------
@@ -578,8 +601,27 @@ func concurrently(n int, f func(g int, start <-chan struct{}) string) []string {
 	return res
 }
 
-func runProgOnce(p *goja.Program, reps int, start <-chan struct{}) string {
+// a Runtime whose global object is a host-provided plain object: the built-ins are copied over and the given
+// properties already exist
+func customGlobalRuntime(names []string) *goja.Runtime {
 	vm := goja.New()
+	old := vm.GlobalObject()
+	g := vm.NewObject()
+	for _, k := range old.GetOwnPropertyNames() {
+		g.Set(k, old.Get(k))
+	}
+	for i, n := range names {
+		g.Set(n, 5+i)
+	}
+	vm.SetGlobalObject(g)
+	return vm
+}
+
+func runProgOnce(p *goja.Program, reps int, start <-chan struct{}) string {
+	return runProgIn(goja.New(), p, reps, start)
+}
+
+func runProgIn(vm *goja.Runtime, p *goja.Program, reps int, start <-chan struct{}) string {
 	if start != nil {
 		<-start
 	}
@@ -607,31 +649,60 @@ func runCase(c Case) vh.Record {
 		if err != nil {
 			return vh.Record{Case: raw, Coq: "CFail", Obs: "compile error: " + err.Error(), Tags: append(tags, "compile_error")}
 		}
-		runs := concurrently(c.G, func(g int, start <-chan struct{}) string { return runProgOnce(shared, c.Reps, start) })
+		custom := func(g int) bool { return len(c.Cg) > 0 && g%3 == 0 }
+		preRes := ""
+		if c.Pre && len(c.Cg) > 0 {
+			preRes = runProgIn(customGlobalRuntime(c.Cg), shared, c.Reps, nil)
+			tags = append(tags, "pre-custom-global")
+		}
+		runs := concurrently(c.G, func(g int, start <-chan struct{}) string {
+			if custom(g) {
+				return runProgIn(customGlobalRuntime(c.Cg), shared, c.Reps, start)
+			}
+			return runProgOnce(shared, c.Reps, start)
+		})
+		post := runProgOnce(shared, c.Reps, nil) // a fresh runtime after everything else has used the Program
 		iso, _ := goja.Compile("case.js", c.Src, false)
 		seq := runProgOnce(iso, c.Reps, nil)
-		var rs []string
+		seqCustom := ""
+		if len(c.Cg) > 0 {
+			isoC, _ := goja.Compile("case.js", c.Src, false)
+			seqCustom = runProgIn(customGlobalRuntime(c.Cg), isoC, c.Reps, nil)
+			tags = append(tags, "custom-global")
+		}
+		var rs, alt []string
 		eq := true
-		for _, r := range runs {
-			rs = append(rs, vh.CoqN(fp(r)))
-			if r != seq {
+		obs := ""
+		cmp := func(who, got, want string, isAlt bool) {
+			if isAlt {
+				alt = append(alt, fmt.Sprintf("(%s, %s)", vh.CoqN(fp(want)), vh.CoqN(fp(got))))
+			} else {
+				rs = append(rs, vh.CoqN(fp(got)))
+			}
+			if got != want && eq {
 				eq = false
+				obs = fmt.Sprintf(" | %s: %s (isolated: %s)", who, short(got), short(want))
 			}
 		}
-		obs := fmt.Sprintf("eq=%v seq=%s", eq, short(seq))
+		if preRes != "" {
+			cmp("custom-global runtime before the concurrent phase", preRes, seqCustom, true)
+		}
+		for g, r := range runs {
+			if custom(g) {
+				cmp(fmt.Sprintf("goroutine %d (custom global)", g), r, seqCustom, true)
+			} else {
+				cmp(fmt.Sprintf("goroutine %d", g), r, seq, false)
+			}
+		}
+		cmp("fresh runtime afterwards", post, seq, false)
+		obs = fmt.Sprintf("eq=%v seq=%s", eq, short(seq)) + obs
 		if !eq {
 			tags = append(tags, "neq")
-			for g, r := range runs {
-				if r != seq {
-					obs += fmt.Sprintf(" | goroutine %d: %s", g, short(r))
-					break
-				}
-			}
 		}
 		if strings.HasPrefix(seq, "err:") {
 			tags = append(tags, "result:"+strings.SplitN(seq, "\x00", 2)[0])
 		}
-		return vh.Record{Case: raw, Coq: fmt.Sprintf("CProg %s %s %s", ops, vh.CoqN(fp(seq)), vh.CoqList(rs)),
+		return vh.Record{Case: raw, Coq: fmt.Sprintf("CProg %s %s %s %s", ops, vh.CoqN(fp(seq)), vh.CoqList(rs), vh.CoqList(alt)),
 			Obs: obs, Tags: tags, Nontrivial: c.G >= 2 && !strings.HasPrefix(seq, "err:")}
 	case "vals":
 		tags := []string{"vals", fmt.Sprintf("g=%d", c.G)}
@@ -789,9 +860,26 @@ func runXrt(c Case, raw json.RawMessage) vh.Record {
 			arr := b.NewArray(val)
 			got = arr.Get("0")
 		case "goret":
-			// a reflect-wrapped Go function of runtime B returning the value: the result goes through ToValue
-			if err = b.Set("gofn", func() interface{} { return val }); err == nil {
-				got, err = b.RunString("gofn()")
+			// a reflect-wrapped Go function of runtime B returning the value, for every declared result type
+			var fn interface{}
+			v, _ := val.(goja.Value)
+			o, _ := val.(*goja.Object)
+			switch c.Xrt.Ret {
+			case "value":
+				fn = func() goja.Value { return v }
+			case "valueerr":
+				fn = func() (goja.Value, error) { return v, nil }
+			case "object":
+				fn = func() *goja.Object { return o }
+			case "objecterr":
+				fn = func() (*goja.Object, error) { return o, nil }
+			case "multi":
+				fn = func() (goja.Value, int) { return v, 1 }
+			default:
+				fn = func() interface{} { return val }
+			}
+			if err = b.Set("gofn", fn); err == nil {
+				got, err = b.RunString("var r = gofn(); Array.isArray(r) && r.length === 2 && r[1] === 1 ? r[0] : r")
 			}
 		case "callthis", "rtnew":
 			// the value as 'this' of a runtime-B Callable / as an argument of Runtime.New
@@ -852,13 +940,27 @@ func runXrt(c Case, raw json.RawMessage) vh.Record {
 	}()
 	names := []string{"accepted", "null", "TypeError", "other"}
 	return vh.Record{Case: raw, Coq: fmt.Sprintf("CXrt %s 1 (%s) %s", vh.CoqBool(c.Xrt.Path == "callarg" || c.Xrt.Path == "callthis" || c.Xrt.Path == "rtnew"), g, vh.CoqN(uint64(code))),
-		Obs: names[code] + " " + detail, Tags: []string{"xrt", "xrt:" + c.Xrt.Obj, "path:" + c.Xrt.Path}, Nontrivial: g == "GObject 0"}
+		Obs: names[code] + " " + detail, Tags: []string{"xrt", "xrt:" + c.Xrt.Obj, "path:" + c.Xrt.Path + c.Xrt.Ret}, Nontrivial: g == "GObject 0"}
 }
 
 func genXrt(r *vh.Rng) Case {
 	objs := []string{"object", "array", "func", "date", "proxy", "own", "prim", "sym", "nil"}
 	paths := []string{"set", "tovalue", "setfield", "newarray", "goret", "callarg", "callthis", "rtnew"}
-	c := Case{Kind: "xrt", Xrt: &XrtSpec{Obj: objs[r.Intn(len(objs))], Path: paths[r.Intn(len(paths))]}}
+	path := paths[r.Intn(len(paths))]
+	if r.Chance(35) {
+		path = "goret"
+	}
+	c := Case{Kind: "xrt", Xrt: &XrtSpec{Obj: objs[r.Intn(len(objs))], Path: path}}
+	if c.Xrt.Path == "goret" {
+		c.Xrt.Ret = []string{"iface", "value", "valueerr", "object", "objecterr", "multi"}[r.Intn(6)]
+		isObj := map[string]bool{"object": true, "array": true, "func": true, "date": true, "proxy": true, "own": true, "nil": true}
+		if (c.Xrt.Ret == "object" || c.Xrt.Ret == "objecterr") && !isObj[c.Xrt.Obj] {
+			c.Xrt.Obj = "object"
+		}
+		if (c.Xrt.Ret == "value" || c.Xrt.Ret == "valueerr" || c.Xrt.Ret == "multi") && c.Xrt.Obj == "nil" {
+			c.Xrt.Obj = "array"
+		}
+	}
 	if (c.Xrt.Path == "callarg" || c.Xrt.Path == "callthis" || c.Xrt.Path == "rtnew") && c.Xrt.Obj == "nil" {
 		c.Xrt.Obj = "object" // a nil *Object is not a Value that can be passed directly
 	}
@@ -866,7 +968,7 @@ func genXrt(r *vh.Rng) Case {
 }
 
 func genCase(r *vh.Rng) Case {
-	switch r.Pick(48, 48, 4) {
+	switch r.Pick(44, 42, 14) {
 	case 0:
 		return genProg(r)
 	case 1:
